@@ -37,15 +37,22 @@ class FrozenDateTime:
     10-minute discovery window of the decoder cannot expire in the middle of a run on a slow
     machine; everything it returns is a plain datetime (orjson refuses subclasses)."""
 
+    offset = _dt.timedelta(0)
+
     @staticmethod
     def now(tz=None):
-        return FROZEN_NOW
+        return FROZEN_NOW + FrozenDateTime.offset
 
     strptime = staticmethod(_dt.datetime.strptime)
 
 
 def freeze_clock():
     _decoder_mod.datetime = FrozenDateTime
+
+
+def set_clock_offset(minutes):
+    """move the frozen clock (only used to step out of the decoder's 10-minute discovery window)"""
+    FrozenDateTime.offset = _dt.timedelta(minutes=minutes)
 
 
 freeze_clock()
